@@ -99,9 +99,18 @@ theorem traveled_nonneg (eps : K) (Am : Ambient S K) (hnn : ∀ a b, 0 ≤ Am.di
     simp only [traveled]
     exact traveled_nonneg eps Am hnn x xs _ (by simp only [fieldArith]; exact add_nonneg h (hnn _ _))
 
+theorem frac_range (dt rem : K) (h1 : 0 ≤ dt) (h2 : 0 ≤ rem) :
+    (0 ≤ if decide (0 < dt + rem) = true then dt / (dt + rem) else 0) ∧
+    (if decide (0 < dt + rem) = true then dt / (dt + rem) else 0) ≤ 1 := by
+  by_cases hpos : 0 < dt + rem
+  · simp only [hpos, decide_true, ↓reduceIte]
+    exact ⟨div_nonneg h1 hpos.le, div_le_one_of_le₀ (by linarith) hpos.le⟩
+  · simp only [hpos, decide_false, Bool.false_eq_true, ↓reduceIte]
+    exact ⟨le_refl _, zero_le_one⟩
+
 theorem fraction_range (eps : K) (Am : Ambient S K) (hnn : ∀ a b, 0 ≤ Am.dist a b)
-    (isSat : σ → S → Bool × σ) (geo : Geo σ S) (hf : Bool) (s : σ) (s1 s2 : S) (f : K)
-    (h : (checkMotion2 (fieldArith eps) Am isSat geo hf s s1 s2).second = some f) :
+    (isSat isValid : σ → S → Bool × σ) (geo : Geo σ S) (hf : Bool) (s : σ) (s1 s2 : S) (f : K)
+    (h : (checkMotion2 (fieldArith eps) Am isSat isValid geo hf s s1 s2).second = some f) :
     0 ≤ f ∧ f ≤ 1 := by
   unfold checkMotion2 at h
   simp only at h
@@ -118,9 +127,7 @@ theorem fraction_range (eps : K) (Am : Ambient S K) (hnn : ∀ a b, 0 ≤ Am.dis
       have hdt := traveled_nonneg eps Am hnn g0 rest (fieldArith eps).zero (by simp [fieldArith])
       have hrem := hnn ((g0 :: rest).getLast (by simp)) s2
       simp only [fieldArith] at hdt ⊢
-      constructor
-      · exact div_nonneg hdt (add_nonneg hdt hrem)
-      · exact div_le_one_of_le₀ (by linarith) (add_nonneg hdt hrem)
+      exact frac_range _ _ hdt hrem
     · simp at h
 
 theorem overshoot_witness :
